@@ -90,8 +90,10 @@ func NewQuery(sql string) (*Command, error) {
 	return query, nil
 }
 
+// QuoteString quotes str for the MySQL dialect the library parses:
+// backslash is an escape character there, so it is doubled as well
 func QuoteString(str string) string {
-	return "'" + strings.ReplaceAll(str, "'", "''") + "'"
+	return "'" + strings.NewReplacer("'", "''", `\`, `\\`).Replace(str) + "'"
 }
 
 func QuoteBytes(buf []byte) string {
